@@ -2,8 +2,10 @@
     This file contains only statements; every proof is [exact <lemma of Proofs/*.v>] (or a
     computed witness for the [_refuted] theorems and the non-vacuity [Example]s). *)
 From GC Require Import Common.Base Model.PlainMap Model.Json Model.I18n.
-From GC Require Import Proofs.PlainMap Proofs.Json Proofs.I18n.
+From GC Require Import Model.Loop Model.LoopLive Model.I18nLoad.
+From GC Require Import Proofs.PlainMap Proofs.Json Proofs.I18n Proofs.C20More.
 From Coq Require Import Permutation.
+Open Scope N_scope.
 
 (** * Flattening and rebuilding *)
 
@@ -177,3 +179,276 @@ Example C20_loader_hyp :
   file_log f1 = Some [([97], [49])] /\ file_log f3 = Some [([98; 46; 99], [51])] /\
   run_callbacks [f3; f1] [] = Some [([98; 46; 99], [51]); ([97], [49])].
 Proof. vm_compute. auto. Qed.
+
+(** * Added by the proof audit (lemmas in Proofs/C20More.v)
+
+    Clause / dimension of the statement          theorem(s)                         strength
+    flatten then rebuild = identity              C20_flatten_unflatten              full for the quantifier minus the empty top-level key (K-C20,
+                                                                                    refuted witness); conclusion was "same leaf under every path"
+                                                 C20_flatten_unflatten_deep (new)   conclusion = deep equality ([canon], the compared observable)
+    rebuild then flatten = identity              C20_unflatten_flatten              full (keys non-empty, unique, prefix-free); lookup equivalence
+                                                 C20_unflatten_flatten_deep (new)   for every t' DEEPLY EQUAL to the result; equal sorted listings
+    deep equality = same leaves                  C20_deep_equal (new)               full, all well-formed maps
+    reader: string/number leaves, decoded        C20_read_leaf, C20_read_total      full on the subset (syntax trees, any whitespace, any tail)
+    reader = decoder + flatten                   C20_read_is_flatten (new)          full on the subset; ties the JSON clause to clause 1
+    write then read, all values                  C20_write_read(_sorted), C20_emit_valid, C20_unescape_escape, C20_emit_total   full
+    loader: every key of every file              C20_loader                         hypotheses: exactly-once (from C08), all files parse,
+                                                                                    pairwise DISJOINT key sets
+                                                 C20_loader_exact (new)             no hypothesis on keys: nothing else is translatable, every
+                                                                                    key translatable, to its value when the defining files agree
+    loader: any number of files / consumers,     C20_loader_end_to_end (new)        every tree, pool limits, queue capacities, EVERY schedule of
+    any scheduling                               C20_loader_no_junk (new)           the C08 system; the exactly-once hypothesis and the
+                                                 C20_loader_returns (new)           "all files parse" hypothesis are DERIVED (from C08 and from
+                                                                                    "Load returned nil"), no longer assumed
+    Still partial: Set is one atomic step per callback (it holds the mutex of I18Mem for its whole
+    loop; the order of the calls is quantified over); Translate without format arguments. *)
+
+(** ** Deep equality *)
+
+(** For well-formed nested maps (dot-free keys, unique keys per object, no empty sub-map):
+    the canonical forms - children sorted by key at every level, the observable the
+    correspondence check compares and what reflect.DeepEqual decides on the Go maps - are equal
+    EXACTLY when both maps have the same leaf under every path. *)
+Theorem C20_deep_equal : forall a b : children, wf_children a = true -> wf_children b = true ->
+  (canon a = canon b <-> forall p, leafat p a = leafat p b).
+Proof. exact deep_equal_iff. Qed.
+Print Assumptions C20_deep_equal.
+
+(** Supersedes C20_flatten_unflatten: same quantifier, the conclusion is deep equality. *)
+Theorem C20_flatten_unflatten_deep : forall (t : children) (m' : flatmap),
+  wf_children t = true -> forallb (fun kc => nonempty (fst kc)) t = true ->
+  Permutation m' (flatten t) ->
+  exists t', unflatten m' = Ok t' /\ wf_children t' = true /\ canon t' = canon t.
+Proof. exact flatten_unflatten_deep. Qed.
+Print Assumptions C20_flatten_unflatten_deep.
+
+Example C20_flatten_unflatten_deep_hyp :
+  let t := [([97], Obj [([98], Leaf [1; 34]); ([99], Obj [([], Leaf [])])]); ([195; 169], Leaf [92])] in
+  let t' := [([195; 169], Leaf [92]); ([97], Obj [([99], Obj [([], Leaf [])]); ([98], Leaf [1; 34])])] in
+  wf_children t = true /\ forallb (fun kc => nonempty (fst kc)) t = true /\
+  unflatten (rev (flatten t)) = Ok t' /\ t' <> t /\ wf_children t' = true /\ canon t' = canon t.
+Proof. vm_compute. repeat split; auto. discriminate. Qed.
+
+(** Supersedes C20_unflatten_flatten: the rebuilt map may be iterated in any order - any
+    well-formed [t'] deeply equal to the result - and flattening it gives the same Go map:
+    equal listings sorted by key, without duplicate keys. *)
+Theorem C20_unflatten_flatten_deep : forall m : flatmap, good_flat m = true ->
+  exists t, unflatten m = Ok t /\ wf_children t = true /\
+    forall t', wf_children t' = true -> canon t' = canon t ->
+      normalize (flatten t') = normalize m /\ nodup_keys (normalize (flatten t')) = true.
+Proof. exact unflatten_flatten_deep. Qed.
+Print Assumptions C20_unflatten_flatten_deep.
+
+Example C20_unflatten_flatten_deep_hyp :
+  let m := [([97; 46; 98], [1]); ([99], [2]); ([97; 46; 99; 46; 100], []); ([97; 46; 46], [3]); ([46; 120], [4])] in
+  let t' := [([], Obj [([120], Leaf [4])]); ([99], Leaf [2]);
+             ([97], Obj [([], Obj [([], Leaf [3])]); ([99], Obj [([100], Leaf [])]); ([98], Leaf [1])])] in
+  good_flat m = true /\ wf_children t' = true /\
+  match unflatten m with Ok t => canon t' = canon t /\ t' <> t | _ => False end /\
+  normalize (flatten t') = normalize m.
+Proof. vm_compute. repeat split; auto. discriminate. Qed.
+
+(** ** The reader against the flattening *)
+
+(** [doc_tree] is the nested map a standard decoder builds from the document, restricted to
+    string and number leaves (names and strings decoded, numbers as their literal, every other
+    kind of value dropped).  Reading the document into a flat map is flattening that nested
+    map: JSONToPlainStringMap = RecursiveMapToPlainMap after decoding, on every document of the
+    subset (duplicate member names included: both sides are logs in document order). *)
+Theorem C20_read_is_flatten : forall w m wend tail,
+  all_ws w = true -> members_ok false m = true -> all_ws wend = true ->
+  read_json (w ++ render (JObj m wend) ++ tail) = ROk (flatten (doc_tree m)).
+Proof. exact read_is_flatten. Qed.
+Print Assumptions C20_read_is_flatten.
+
+Example C20_read_is_flatten_hyp :
+  let m := MCons [32] [Raw 97; Esc 110] [] [10]
+             (JObj (MCons [] [EscU 48 48 52 49] [9] []
+                      (JStr [EscPair 100 56 51 68 68 101 48 48; Raw 255; Esc 34; EscU 48 48 69 57]) []
+                   (MCons [] [Raw 110] [] [] (JNum [45; 49; 46; 53; 101; 51]) [32]
+                   (MCons [] [Raw 120] [] []
+                      (JArr (ECons [] (JStr [Raw 93; Esc 34]) [] (ECons [32] JTrue [] ENil)) []) []
+                   (MCons [] [] [] [] JNull [] MNil)))) [13])
+             [] (MCons [] [Raw 101] [] [] (JObj MNil []) [] MNil) in
+  members_ok false m = true /\
+  doc_tree m = [([97; 10], Obj [([65], Leaf [240; 159; 152; 128; 255; 34; 195; 169]);
+                                ([110], Leaf [45; 49; 46; 53; 101; 51])]);
+                ([101], Obj [])] /\
+  read_json (render (JObj m [])) = ROk [([97; 10; 46; 65], [240; 159; 152; 128; 255; 34; 195; 169]);
+                                        ([97; 10; 46; 110], [45; 49; 46; 53; 101; 51])].
+Proof. vm_compute. auto. Qed.
+
+(** ** The loader without the disjointness hypothesis *)
+
+(** Supersedes C20_loader (its conclusion follows with [disjoint_agree]).  Assumed: the
+    callbacks ran once per selected file in some order (C08), the selected files parse.  Then
+    the load succeeds, the store holds NOTHING but entries of selected files, every key of
+    every selected file is translatable, and it translates to the value the file gives it
+    whenever all selected files that define the key give it that value. *)
+Theorem C20_loader_exact : forall (files order : list file),
+  Permutation order (filter selected files) ->
+  (forall f, In f files -> selected f = true -> file_log f <> None) ->
+  exists store, run_callbacks order [] = Some store /\
+    (forall k v, translate k store = Some v ->
+                 exists f, In f files /\ selected f = true /\ fgives f k v) /\
+    (forall f k v, In f files -> selected f = true -> fgives f k v ->
+       (exists v', translate k store = Some v') /\
+       ((forall g v', In g files -> selected g = true -> fgives g k v' -> v' = v) ->
+        translate k store = Some v)).
+Proof. exact loader_exact. Qed.
+Print Assumptions C20_loader_exact.
+
+(* two files share the key "a" and agree on it; a third, not selected, disagrees *)
+Example C20_loader_exact_hyp :
+  let f1 : file := ([97; 47; 120; 46; 106; 115; 111; 110], [123; 34; 97; 34; 58; 34; 49; 34; 125]) in
+  let f2 : file := ([121; 46; 116; 120; 116], [123; 34; 97; 34; 58; 34; 50; 34; 125]) in
+  let f3 : file := ([122; 46; 106; 115; 111; 110],
+                    [123; 34; 98; 34; 58; 123; 34; 99; 34; 58; 34; 51; 34; 125; 44; 34; 97; 34; 58; 34; 49; 34; 125]) in
+  filter selected [f1; f2; f3] = [f1; f3] /\
+  file_log f1 = Some [([97], [49])] /\ file_log f3 = Some [([98; 46; 99], [51]); ([97], [49])] /\
+  run_callbacks [f3; f1] [] = Some [([98; 46; 99], [51]); ([97], [49]); ([97], [49])] /\
+  ~ ForallOrdPairs disjoint_files [f1; f3].
+Proof.
+  cbv zeta. do 4 (split; [vm_compute; reflexivity|]).
+  intro H. inversion H as [|? ? H1 _]; subst. inversion H1 as [|? ? H2 _]; subst.
+  apply (H2 [97]). split; [exists [([97], [49])], [49]|exists [([98; 46; 99], [51]); ([97], [49])], [49]];
+    vm_compute; auto.
+Qed.
+
+(** ** The loader over the fsloop model of C08: every tree, every schedule
+
+    [load_cfg content lserr pmax cmax dcap fcap] is the LoopData Load builds (FileFilter =
+    HasSuffix ".json", no DirFilter, no OnDir, OnFile = ReadFile + JSONToPlainStringMap + Set;
+    the callback fails exactly when ReadFile or the reader fails) with arbitrary pool limits and
+    queue capacities; [content] is what ReadFile returns (None = an error), [lserr] which
+    listings fail.  A run is ANY schedule [sched] of producers, consumers, completion goroutine,
+    waiter and environment kill (Model/Loop.v).  [run_sets content order []] is the store after
+    the Set calls of the callbacks [order]; Set holds the mutex of I18Mem for its whole loop, so
+    the calls are totally ordered, and [order] ranges over ALL permutations of the callbacks that
+    returned.  [loaded] (Model/I18nLoad.v): every ".json" file of the tree was read and parsed,
+    nothing but their entries is translatable, every key of every such file is translatable -
+    to its value when the files defining it agree (always when key sets are disjoint). *)
+
+(** Load returned nil - every consumer has exited, so Wait returns, and the lifecycle was not
+    killed, so Errors() is empty (Errors() appends ctx.Err() after a kill): the callbacks that
+    ran are exactly the ".json" files of the tree, at any depth, and the tree is loaded. *)
+Theorem C20_loader_end_to_end : forall content lserr pmax cmax dcap fcap base root sched order,
+  (1 <= cmax)%nat ->
+  let cfg := load_cfg content lserr pmax cmax dcap fcap in
+  let s := run cfg sched (init cfg base root) in
+  all_exited s = true -> killed s = false ->
+  Permutation order (ended s) ->
+  Permutation order (map IFile (json_files base root)) /\
+  loaded content base root (run_sets content order []).
+Proof. exact load_end_to_end. Qed.
+Print Assumptions C20_loader_end_to_end.
+
+(** Safety at EVERY moment of EVERY run (errors, kills, unfinished walks included): whichever
+    of the returned callbacks have made their Set call, in any order, nothing but entries of
+    ".json" files of the tree is translatable. *)
+Theorem C20_loader_no_junk : forall content lserr pmax cmax dcap fcap base root sched order k v,
+  let cfg := load_cfg content lserr pmax cmax dcap fcap in
+  let s := run cfg sched (init cfg base root) in
+  (forall it, In it order -> In it (ended s)) ->
+  translate k (run_sets content order []) = Some v ->
+  exists p, In p (json_files base root) /\ gives content p k v.
+Proof. exact load_no_junk. Qed.
+Print Assumptions C20_loader_no_junk.
+
+(** From every reachable state of a load the round-robin continuation of C08 (no kill in it)
+    makes every consumer exit and Wait return; if the lifecycle is then not killed, the tree is
+    loaded in whatever order the callbacks held the mutex.  (Termination under an arbitrary
+    fair Go schedule is not claimed, as in C08.) *)
+Theorem C20_loader_returns : forall content lserr pmax cmax dcap fcap base root sched,
+  (1 <= cmax)%nat -> (1 <= dcap)%nat -> (1 <= fcap)%nat ->
+  let cfg := load_cfg content lserr pmax cmax dcap fcap in
+  let s := run cfg sched (init cfg base root) in
+  let s' := run cfg (sched ++ rr_from cfg s) (init cfg base root) in
+  all_exited s' = true /\ waited s' = true /\
+  (killed s' = false -> forall order, Permutation order (ended s') ->
+     loaded content base root (run_sets content order [])).
+Proof. exact load_returns. Qed.
+Print Assumptions C20_loader_returns.
+
+(* a directory with a selected and an unselected file, a selected file at the top; two producers,
+   two consumers; the two selected files share the key "a" and agree on it; the schedule starts
+   with a consumer that polls before anything is queued *)
+Definition ex_p1 : path := [46; 47; 97; 47; 120; 46; 106; 115; 111; 110].       (* ./a/x.json *)
+Definition ex_p2 : path := [46; 47; 122; 46; 106; 115; 111; 110].               (* ./z.json *)
+Definition ex_content (p : path) : option bytes :=
+  if bytes_eqb p ex_p1 then Some [123; 34; 97; 34; 58; 34; 49; 34; 125]
+  else if bytes_eqb p ex_p2 then
+    Some [123; 34; 98; 34; 58; 123; 34; 99; 34; 58; 34; 51; 34; 125; 44; 34; 97; 34; 58; 34; 49; 34; 125]
+  else None.
+Definition ex_tree : list tree :=
+  [Dir [97] [File [120; 46; 106; 115; 111; 110]; File [121; 46; 116; 120; 116]]; File [122; 46; 106; 115; 111; 110]].
+
+Example C20_loader_end_to_end_hyp :
+  let cfg := load_cfg ex_content (fun _ => false) 2%nat 2%nat 4%nat 4%nat in
+  let s0 := run cfg [TC 1%nat; TC 1%nat; TP 0%nat] (init cfg [46; 47] ex_tree) in
+  let s := run cfg (rr_from cfg s0) s0 in
+  all_exited s = true /\ killed s = false /\ waited s = true /\
+  json_files [46; 47] ex_tree = [ex_p1; ex_p2] /\
+  ended s = [IFile ex_p2; IFile ex_p1] /\
+  run_sets ex_content (ended s) [] = [([98; 46; 99], [51]); ([97], [49]); ([97], [49])] /\
+  translate [98; 46; 99] (run_sets ex_content (rev (ended s)) []) = Some [51] /\
+  translate [97] (run_sets ex_content (rev (ended s)) []) = Some [49].
+Proof. vm_compute. repeat split. Qed.
+
+(* an unparsable selected file: the callback fails, the lifecycle is killed, Load reports it;
+   the no-junk theorem still applies to the store *)
+Example C20_loader_error_hyp :
+  let content (p : path) := if bytes_eqb p ex_p2 then Some [123; 34] else ex_content p in
+  let cfg := load_cfg content (fun _ => false) 2%nat 2%nat 4%nat 4%nat in
+  let s0 := init cfg [46; 47] ex_tree in
+  let s := run cfg (rr_from cfg s0) s0 in
+  all_exited s = true /\ killed s = true /\ errs s = [ECb (IFile ex_p2)] /\
+  ended s = [IFile ex_p2; IFile ex_p1] /\
+  run_sets content (ended s) [] = [([97], [49])].
+Proof. vm_compute. repeat split. Qed.
+
+(** ** I18Mem.Set statement by statement (Model/I18nLoad.v, [mstep])
+
+    The theorems above take one Set call as one atomic step and quantify over the order of the
+    calls.  This one justifies it: goroutine i has the maps [nth i todos] to Set, a step is
+    Lock (enabled when the mutex is free), ONE assignment translates[key] = value, or Unlock, and
+    the schedule is arbitrary.  At every moment the store is a prefix of what the calls that took
+    the mutex leave when executed one after the other in lock order ([hist]); it IS that whenever
+    the mutex is free; calls taken + calls still to come = the calls there were; when all
+    goroutines are done the store is the sequential result of all calls in lock order - one of
+    the orders C20_loader_end_to_end quantifies over. *)
+Theorem C20_set_serial : forall (todos : list (list flatmap)) (sched : list nat),
+  let s := mrun true sched (minit todos) in
+  (exists rest, tr s ++ rest = fold_left i18_set (hist s) []) /\
+  (mu s = false -> tr s = fold_left i18_set (hist s) []) /\
+  Permutation (concat todos) (hist s ++ flat_map pend (thr s)) /\
+  (mdone s = true -> tr s = fold_left i18_set (hist s) [] /\ Permutation (hist s) (concat todos)).
+Proof. exact set_serial. Qed.
+Print Assumptions C20_set_serial.
+
+(* two goroutines, maps with the same two keys; goroutine 1 tries to lock while 0 is inside
+   (skipped), 0 is scheduled while 1 is inside (its Lock is skipped) *)
+Example C20_set_serial_hyp :
+  let a := [([107], [49]); ([106], [49])] in
+  let b := [([107], [50]); ([106], [50])] in
+  let s := mrun true [0; 1; 0; 1; 0; 0; 1; 0; 1; 1; 0; 1; 0]%nat (minit [[a]; [b]]) in
+  mdone s = true /\ hist s = [a; b] /\ tr s = a ++ b /\
+  mu (mrun true [0; 1; 0]%nat (minit [[a]; [b]])) = true /\
+  tr (mrun true [0; 1; 0]%nat (minit [[a]; [b]])) = [([107], [49])].
+Proof. vm_compute. repeat split. Qed.
+
+(** WITNESS (hypothetical code, not goatcore's): the same Set without the mutex is not
+    serialisable - two calls interleave their assignments and leave a store that no order of
+    the two calls produces (key k from the second map, key j from the first). *)
+Theorem C20_set_unlocked_refuted :
+  exists todos sched, let s := mrun false sched (minit todos) in
+    mdone s = true /\
+    forall order, Permutation order (concat todos) -> ~ flat_equiv (tr s) (fold_left i18_set order []).
+Proof.
+  exists [[[([107], [49]); ([106], [49])]]; [[([107], [50]); ([106], [50])]]], [0; 1; 0; 1; 1; 0; 1; 0]%nat.
+  cbv zeta. split; [vm_compute; reflexivity|]. intros order P H.
+  apply Permutation_sym in P. cbn [concat app] in P. apply Permutation_length_2_inv in P as [->| ->].
+  - specialize (H [106]). vm_compute in H. discriminate.
+  - specialize (H [107]). vm_compute in H. discriminate.
+Qed.
+Print Assumptions C20_set_unlocked_refuted.
